@@ -10,7 +10,9 @@ CASES_HEADER = "Require Import Nib.C10.Model Nib.C10.Spec Nib.C10.Check."
 CASE_TYPE = "case"
 MISMATCH_FN = "mismatch"
 VIOLATES_FN = "violates"
-RULE = ("two kinds of cases. (1) single: one real oracle.EndBlocker call on the x/oracle keeper fixture after a generated staking situation "
+RULE = ("three kinds of cases. (3) params: generated parameter values (valid / invalid in one or several fields) are "
+        "given to the real Params.Validate and to MsgEditOracleParams (sudo sender, full test app); the acceptance must "
+        "equal Spec.params_valid, a rejected edit must leave the stored params unchanged. (1) single: one real oracle.EndBlocker call on the x/oracle keeper fixture after a generated staking situation "
         "(1-12 validators, powers 0/1/ties/huge, fractional tokens, unbonded late joiners, undelegated-after-bonding, "
         "jailed, MaxValidators cut-off), generated Params (Validate-accepted), whitelist, Votes store (positive / "
         "abstain / missing / strangers / non-whitelisted / duplicate tuples / huge rates) and pre-existing rates around "
@@ -116,7 +118,17 @@ def _hist_flags(rec):
     return fl
 
 
+def _is_params(rec_or_inp):
+    inp = rec_or_inp.get("input", rec_or_inp)
+    return inp.get("kind") == "params"
+
+
 def to_coq_case(rec):
+    if _is_params(rec):
+        p, o = rec["input"]["params"], rec["obs"]
+        params = "(mkParams %s %s %s %s %s)" % (_z(p["vp"]), _z(p["thr"]), _z(p["minv"]), _z(p["exp"]), _z(p["band"]))
+        ed = {"ok": "(Some true)", "rejected": "(Some false)", "na": "None"}[o["edit"]]
+        return "(CParams %s %s %s %s)" % (params, _b(o["validate_ok"]), ed, _b(o["stored_ok"]))
     if _is_hist(rec):
         return _hist_case(rec)
     inp, obs = rec["input"], rec["obs"]
@@ -149,6 +161,8 @@ def _eligible(rec):
 
 def nontrivial(rec):
     inp = rec["input"]
+    if _is_params(rec):
+        return rec["obs"]["edit"] != "na"
     if _is_hist(rec):
         fl = _hist_flags(rec)
         return "period-without-quorum-but-votes" in fl or "period-with-quorum" in fl
@@ -163,6 +177,8 @@ def nontrivial(rec):
 
 def classify(rec):
     inp, obs = rec["input"], rec["obs"]
+    if _is_params(rec):
+        return ["kind:params", "params:validate=%s" % obs["validate_ok"], "params:edit=%s" % obs["edit"]]
     if _is_hist(rec):
         return ["kind:history", "hist-steps=%d" % len(inp["steps"])] + ["hist:" + f for f in sorted(_hist_flags(rec))]
     ks = ["kind:single", "validators=%d" % len(inp["vals"]), "period_end=%s" % _period_end(inp)]
@@ -203,6 +219,8 @@ def describe(rec):
 
 def signature(rec):
     inp, obs = rec["input"], rec["obs"]
+    if _is_params(rec):
+        return {"kind": "params-acceptance", "validate_ok": obs["validate_ok"], "edit": obs["edit"]}
     if _is_hist(rec):
         return {"kind": "history", "flags": sorted(_hist_flags(rec))}
     return {"kind": "panic" if obs["panic"] else "price-update",
@@ -211,6 +229,8 @@ def signature(rec):
 
 
 def input_size(inp):
+    if _is_params(inp):
+        return 1
     if _is_hist(inp):
         return 10 * len(inp["steps"]) + sum(len(v["t"]) + 2 for st in inp["steps"] for v in st["votes"] or []) \
             + sum(len(st["prevotes"] or []) for st in inp["steps"]) + 5 * len(inp["vals"])
@@ -242,6 +262,8 @@ def _shrink_hist(inp):
 
 
 def shrink_candidates(inp):
+    if _is_params(inp):
+        return []
     if _is_hist(inp):
         return _shrink_hist(inp)
     out = []
